@@ -1,34 +1,10 @@
 // ---------------------------------------------------------------------------------------------
 // Error types of src/errors.rs used by the log code (real definitions, extracted).
 // ---------------------------------------------------------------------------------------------
+//@include specs/common/dbio_error.vs
 //@struct src/errors.rs :: LogCorruptionErrorMetadata derive: Debug
 //@enum src/errors.rs :: LogIOError derive: Debug
 //@enum src/errors.rs :: LogSerializationErrorKind derive: Debug
-//@struct src/errors.rs :: DBIOError derive: Debug
-
-//@impl src/errors.rs :: impl DBIOError
-//@fn new
-//@sig
-    ensures r.error_kind == error_kind, r.custom_message == custom_message,
-//@endfn
-//@fn kind
-//@sig
-    ensures r == self.error_kind,
-//@endfn
-//@endimpl
-
-// A-std (assumed): `impl From<io::Error> for DBIOError` keeps the error kind (its body calls
-// io::Error::to_string, which is outside Verus).
-impl From<std::io::Error> for DBIOError {
-    #[verifier::external_body]
-    fn from(io_err: std::io::Error) -> (r: Self) { unimplemented!() }
-}
-impl FromSpecImpl<std::io::Error> for DBIOError {
-    open spec fn obeys_from_spec() -> bool { true }
-    open spec fn from_spec(e: std::io::Error) -> Self {
-        DBIOError { error_kind: io_kind(&e), custom_message: io_msg(e) }
-    }
-}
 
 //@impl src/errors.rs :: impl From<io::Error> for LogIOError as: impl From<std::io::Error> for LogIOError
 //@fn from
